@@ -2,33 +2,33 @@ package h
 
 import (
 	"fmt"
+	"os"
 	"testing"
 )
 
-func TestDbgAspect(t *testing.T) {
-	for _, end := range []string{"ok", "trap", "revert"} {
-		for _, burn := range []uint64{0, 1000, 1000000000} {
-			code := NewAsm().Push(7).Push(1).Op(SSTORE).ReturnBytes([]byte("hello")).Bytes()
-			sc := &Scenario{Fork: "Shanghai",
-				Accounts: []Account{{Addr: ContractAddrs[0], Nonce: 1, Code: code}, {Addr: EOAAddr, Balance: hexU64(1 << 40)}},
-				Invs:     []Invocation{{Kind: "call", Origin: EOAAddr, Caller: EOAAddr, To: ContractAddrs[0], Gas: 200000, JP: true, Input: []byte{1, 2}, Value: hexU64(5)}},
-				Bindings: []AspectBinding{{Contract: ContractAddrs[0], Pre: []AspectSpec{{Burn: burn, End: end}}, Post: []AspectSpec{{Burn: 10, End: "ok"}}}},
-			}
-			r := RunArtela(sc, ArtelaOpts{Debug: true})
-			fmt.Printf("== end=%s burn=%d -> ret=%x err=%q gas=%d panic=%.200s\n", end, burn, r.Obs[0].Ret, r.Obs[0].Err, r.Obs[0].Gas, r.Obs[0].Panic)
-			for _, e := range r.Rec.Evs {
-				switch e.K {
-				case EvLookup:
-					fmt.Printf("   lookup %s %x\n", e.PointCut, e.To[18:])
-				case EvAspectEnter:
-					fmt.Printf("   aenter jp=%d gas=%d req=%v\n", e.JP, e.Gas, e.Req)
-				case EvAspectExit:
-					fmt.Printf("   aexit jp=%d gas=%d err=%q out=%x\n", e.JP, e.Gas, e.Err, e.Output)
-				case EvStart, EvEnd:
-					fmt.Printf("   %s gas=%d used=%d err=%q\n", e.K, e.Gas, e.GasUsed, e.Err)
-				}
-			}
-			fmt.Printf("   balance callee=%s\n", r.Obs[0].Accts[ContractAddrs[0]].Balance)
+func TestDbgC06(t *testing.T) {
+	sc, err := LoadScenario(os.Getenv("CASE"))
+	if err != nil {
+		t.Fatal(err)
+	}
+	an, bad := analyseJP(sc, ArtelaOpts{})
+	fmt.Println(bad)
+	plain := sc.Clone()
+	plain.Bindings = nil
+	pr := RunArtela(plain, ArtelaOpts{Debug: true})
+	for i := range sc.Invs {
+		fmt.Printf("inv %d: with=%d (%s) without=%d (%s)\n", i, an.art.Obs[i].Gas, an.art.Obs[i].Err, pr.Obs[i].Gas, pr.Obs[i].Err)
+	}
+	for _, f := range an.firings {
+		for _, ar := range f.Aspects {
+			fmt.Printf("firing frame#%d inv=%d post=%v in=%d out=%d err=%.30s\n", f.Frame.Idx, f.Frame.Inv, f.Post, ar.GasIn, ar.GasOut, ar.Err)
 		}
+	}
+	for _, F := range an.fl.Frames {
+		fmt.Printf("frame #%d inv=%d kind=%02x depth=%d to=%x gas=%d err=%q used=%d\n", F.Idx, F.Inv, F.Kind, F.Depth, F.To[18:], F.Gas, F.Err, F.GasUsed)
+	}
+	fl2, _ := BuildFrames(pr.Rec.Evs)
+	for _, F := range fl2.Frames {
+		fmt.Printf("plain frame #%d inv=%d kind=%02x depth=%d to=%x gas=%d err=%q used=%d\n", F.Idx, F.Inv, F.Kind, F.Depth, F.To[18:], F.Gas, F.Err, F.GasUsed)
 	}
 }
